@@ -14,6 +14,7 @@ RULES = [
 ] + IOERR_RULES
 P_RULES = [
     dict(rule="R6", kind="re", pat=r"self\.ensure_root\(\)", repl="self.ensure_root(fs)", min=0, why="ghost file system threaded"),
+    dict(rule="R6", kind="lit", old="self.newest_wal_file_millis()", new="self.newest_wal_file_millis(fs)", min=0, why="directory listing -> assumed contract over the model"),
     dict(rule="R9", kind="lit", old="self.root.join(&file_name)", new="path_join(&self.root, &file_name)", min=0, why="PathBuf::join -> stub"),
     dict(rule="R6", kind="re", pat=r"(?:std::)?fs::File::create\(&path\)", repl="fs_create(fs, &path)", min=0, why="File::create -> power-loss model"),
     dict(rule="R6", kind="re", pat=r"(?:std::)?fs::File::open\(&self\.root\)", repl="fs_open_dir(fs, &self.root)", min=0, why="File::open(dir) -> power-loss model"),
@@ -26,7 +27,7 @@ P_SIG = [dict(pat=r"\(&self\)", repl="(&self, fs: &mut Fs)")] + IOERR_SIG
 
 UNIT = dict(
     name="c10_persist",
-    props=["C10", "C09"],
+    props=["C10", "C09", "C06"],
     features=["allocator_api"],
     uses=["std::collections::HashMap", "vstd::std_specs::hash::*"],
     prelude=["core_types.rs"],
@@ -49,6 +50,7 @@ UNIT = dict(
         dict(kind="fn", file=PATHS, path="impl WalPathManager / fn ensure_root", sig_rules=P_SIG, rules=P_RULES,
              ensures=[("", "final(fs).vol_dir == old(fs).vol_dir && final(fs).vol_data == old(fs).vol_data && final(fs).dur_data == old(fs).dur_data")]),
         dict(kind="fn", file=PATHS, path="impl WalPathManager / fn create_new_file", sig_rules=P_SIG, rules=P_RULES,
-             ensures=[("C10:a_new_wal_file_is_durable_with_its_full_size_when_its_creation_returns", "ret matches Ok(p) ==> after_power_loss(*final(fs), p@) == Some(Seq::new(MAX_FILE_SIZE as nat, |i: int| 0u8))")]),
+             ensures=[("C06:a_new_wal_file_never_reuses_or_sorts_before_the_name_of_an_existing_one", "ret matches Ok(p) ==> exists|n: Seq<char>| p@ == join_spec(self.root.p@, n) && name_value(n) is Some && forall|m: Seq<char>| #[trigger] old(fs).vol_dir@.contains_key(join_spec(self.root.p@, m)) && name_value(m) is Some ==> name_value(m)->Some_0 < name_value(n)->Some_0"),
+                      ("C10:a_new_wal_file_is_durable_with_its_full_size_when_its_creation_returns", "ret matches Ok(p) ==> after_power_loss(*final(fs), p@) == Some(Seq::new(MAX_FILE_SIZE as nat, |i: int| 0u8))")]),
     ],
 )
